@@ -161,3 +161,29 @@ Arguments r_ident {R}.
 Arguments r_kidx {R}.
 Arguments r_share {R}.
 Arguments mkShareRow {R}.
+Arguments k_eon {V}.
+Arguments k_ident {V}.
+Arguments k_key {V}.
+Arguments mkKeyRow {V}.
+Arguments share_tbl {V R}.
+Arguments key_tbl {V R}.
+Arguments dkg_tbl {V R}.
+Arguments mkDb {V R}.
+Arguments m_eon {R}.
+Arguments m_kidx {R}.
+Arguments m_shares {R}.
+Arguments mkMsg {R}.
+Arguments HNone {V}.
+Arguments HKeys {V}.
+Arguments HErr {V}.
+Arguments HPanic {V}.
+Arguments LDone {V}.
+Arguments LNone {V}.
+Arguments LErr {V}.
+Arguments LPanic {V}.
+Arguments insert_share {R}.
+Arguments select_shares {R}.
+Arguments exists_key {V}.
+Arguments insert_key {V}.
+Arguments insert_share_rows {V R}.
+Arguments insert_key_rows {V}.
